@@ -1,6 +1,26 @@
-_ = 5
-i = 0
-while _ > 3 and i < 3:
-    _ -= 1
-    i += 1
-print(_, i)
+x = 1
+class A:
+    x = 2
+    a = [x for _t in range(1)]
+    b = (lambda: x)()
+    c = [t for t in [x]]
+    d = x
+    e = (lambda: (lambda: x)())()
+    f = {k: x for k in [x]}
+print(A.a, A.b, A.c, A.d, A.e, A.f)
+def outer():
+    x = 'enc'
+    y = 'ency'
+    class B:
+        x = 'cls'
+        g = [x for _t in range(1)]
+        h = (lambda: (x, y))()
+        i = [(t, y) for t in [x]]
+    return B.g, B.h, B.i
+print(outer())
+def fn():
+    v = [1, 2]
+    def cap():
+        nonlocal v
+    return [v for v in v], [w for w in v if v]
+print(fn())
